@@ -183,6 +183,22 @@ def targets(ctx):
                 found = validity(name, prefix, status, res, "prefix_mid_record")
                 if status == "ok":
                     found.append(("truncated_record_accepted", f"{fi.kind if fi else 'unknown'}|cut_in_{region}", f"cut={cut}/{len(data)} input={prefix.hex()[:160]}"))
+            # the same prefix behind a declared extent: as the body of a SIZE_DELIMITED frame that announces the whole
+            # message, and through load(stream, size=len(whole message)) - the announced bytes are not there, wherever
+            # the cut falls (record boundary or not): a message may not be returned
+            import betterproto
+            from io import BytesIO
+
+            for how, call in (("frame", lambda: c.bp(name)().load(BytesIO(wire.enc_varint(len(data)) + prefix), betterproto.SIZE_DELIMITED)),
+                              ("sized", lambda: c.bp(name)().load(BytesIO(prefix), len(data)))):
+                try:
+                    call()
+                except RecursionError:
+                    continue
+                except Exception:  # noqa: BLE001
+                    continue
+                nt += 1
+                found.append(("short_frame_accepted", f"{how}|cut_{'at_boundary' if cut in bounds else 'mid_record'}", f"cut={cut}/{len(data)} prefix={prefix.hex()[:160]}"))
             for cl, where, d in found:
                 sig = f"trunc|{cl}|{where}"
                 if sig not in seen:
